@@ -50,13 +50,13 @@ theorem natDigits_head_ne_minus (n : Nat) : ((Time.natDigits n).head? == some 0x
       subst hb
       exact absurd ha.1 (by decide)
 
-theorem unmUint_natDigits (b n : Nat) (h : n < 2 ^ b) : unmUint b (.num (Time.natDigits n)) = .ok (.uint n) := by
+theorem unmUint_natDigits (o : UOpts) (b n : Nat) (h : n < 2 ^ b) : unmUint o b (.num (Time.natDigits n)) = .ok (.uint n) := by
   simp only [unmUint, parseNat_natDigits]
   have : ¬ n > 2 ^ b - 1 := by omega
   simp [this]
 
-theorem unmInt_intDigits (b : Nat) (i : Int) (h0 : -(2 ^ (b - 1) : Int) ≤ i) (h1 : i < (2 ^ (b - 1) : Int)) :
-    unmInt b (.num (Time.intDigits i)) = .ok (.int i) := by
+theorem unmInt_intDigits (o : UOpts) (b : Nat) (i : Int) (h0 : -(2 ^ (b - 1) : Int) ≤ i) (h1 : i < (2 ^ (b - 1) : Int)) :
+    unmInt o b (.num (Time.intDigits i)) = .ok (.int i) := by
   have hcast : (2 ^ (b - 1) : Int) = ((2 ^ (b - 1) : Nat) : Int) := by simp
   rw [hcast] at h0 h1
   have hpos : 0 < 2 ^ (b - 1) := Nat.pos_of_ne_zero (by simp)
